@@ -65,7 +65,7 @@ func interestingRaws(a *AxisDef, dz float64) []int32 {
 	add(float64(a.Max))
 	add(0)
 	add((float64(a.Min) + float64(a.Max)) / 2)
-	if a.Center != nil && *a.Center {
+	if a.Center != nil && *a.Center && a.Min >= 0 {
 		add(float64(a.Max) * (1 + dz) / 2)
 		add(float64(a.Max) * (1 - dz) / 2)
 	} else {
@@ -110,8 +110,8 @@ func genC06(t *rapid.T) AxisCase {
 	} else if rapid.IntRange(0, 3).Draw(t, "flipFalse") == 0 {
 		a.Flip = boolp(false)
 	}
-	if rg.Min == 0 && rapid.Bool().Draw(t, "center") {
-		a.Center = boolp(true)
+	if rapid.Bool().Draw(t, "center") && (rg.Min == 0 || rapid.IntRange(0, 2).Draw(t, "centerOnSigned") == 0) {
+		a.Center = boolp(true) // on a signed axis the option has nothing to move
 	}
 	placeDeadzone(t, m, &a)
 	m.Axes = []AxisDef{a}
@@ -242,8 +242,8 @@ func genC07(t *rapid.T) AxisCase {
 	for i := 0; i < nAxes; i++ {
 		rg := rapid.SampledFrom([]axisRange{{-128, 127}, {-32768, 32767}, {0, 255}, {0, 1023}, {-1, 1}, {-127, 127}}).Draw(t, "range")
 		a := AxisDef{Sub: "", Code: []uint16{0, 1, 3}[i], Type: "cc", Min: rg.Min, Max: rg.Max, CC: intp(ccs[2*i]), CCNeg: intp(ccs[2*i+1])}
-		if rg.Min == 0 && rapid.IntRange(0, 3).Draw(t, "center") > 0 {
-			a.Center = boolp(true)
+		if (rg.Min == 0 && rapid.IntRange(0, 3).Draw(t, "center") > 0) || (rg.Min < 0 && rapid.IntRange(0, 5).Draw(t, "centerOnSigned") == 0) {
+			a.Center = boolp(true) // on a signed axis the option has nothing to move
 		}
 		if rapid.Bool().Draw(t, "off") {
 			a.Off = intp(rapid.IntRange(0, 15).Draw(t, "offv"))
@@ -368,8 +368,8 @@ func genC08(t *rapid.T) AxisCase {
 			}
 			a.NoteNeg = intp(neg)
 		}
-		if rg.Min == 0 && rapid.Bool().Draw(t, "center") {
-			a.Center = boolp(true)
+		if (rg.Min == 0 && rapid.Bool().Draw(t, "center")) || (rg.Min < 0 && rapid.IntRange(0, 5).Draw(t, "centerOnSigned") == 0) {
+			a.Center = boolp(true) // on a signed axis the option has nothing to move
 		}
 		if rapid.IntRange(0, 2).Draw(t, "flip") == 0 {
 			a.Flip = boolp(true)
